@@ -62,6 +62,8 @@ class BaseParser:
             __parsers__[key] = inst
         return inst
 
+    _local_resolve_lock = threading.RLock()
+
     def __init__(self, obj, options: Options = None):
         self.obj = obj
         self.init_kwargs = {"options": options}
@@ -83,7 +85,9 @@ class BaseParser:
         self.addition_type = None
         self.name = get_obj_name(obj)
         self.is_local = is_local_var(obj)
-        self._resolve_lock = threading.RLock()
+        # local objects share one lock: typing caches List['X'], so their parsers may hold the same
+        # ForwardRef object, which each of them evaluates and clears again while resolving
+        self._resolve_lock = self._local_resolve_lock if self.is_local else threading.RLock()
         self.setup()
 
     def make_context(self, context=None, force_error: bool = False):
